@@ -366,3 +366,15 @@ def run(ctx):
     ctx.rule("R6.8", "the tracking mode a model declares for a thread channel is the one its shipped Paraver view documents: cfg/thread/<model>/*.cfg select a PRV type and are named '... of the ACTIVE thread' or '... of the RUNNING thread'; the th_track entry of the channel with that type must be TRACK_TH_ACT resp. TRACK_TH_RUN")
     from rules import round3
     round3.check_track_mode_vs_cfg(ctx, 'R6.8')
+
+
+_run_base = run
+
+
+def run(ctx):
+    _run_base(ctx)
+    prog = ctx.prog
+    ctx.rule("R6.9", "each thread's tracking multiplexers take that thread's channels and select on that thread's own "
+             "state channel (model_thread_connect evaluated on three threads)")
+    from rules import round4
+    round4.check_thread_tracks_select_own_state(ctx, "R6.9")
